@@ -48,10 +48,17 @@ def rule_transport(ctx: Ctx, po: PermOps, mo: MeshOps, fname: str, cells: List[s
     fi = repo.need_method("MeshPatt", fname)
     # n = len(self), m_patt = self
     env0: Dict[str, str] = {}
-    first = fi.body[0]
-    if isinstance(first, ast.Assign) and isinstance(first.targets[0], ast.Tuple) and isinstance(first.value, ast.Tuple):
-        for t, v in zip(first.targets[0].elts, first.value.elts):
-            env0[unparse(t)] = unparse(v)
+    for first in fi.body:
+        # the leading run of plain initialisations (written as one tuple assignment or one by one)
+        if isinstance(first, ast.Assign) and isinstance(first.targets[0], ast.Tuple) and isinstance(first.value, ast.Tuple):
+            for t, v in zip(first.targets[0].elts, first.value.elts):
+                env0[unparse(t)] = unparse(v)
+        elif isinstance(first, ast.Assign) and len(first.targets) == 1 and isinstance(first.targets[0], ast.Name) and unparse(first.value) in ("len(self)", "self", "[]"):
+            env0[first.targets[0].id] = unparse(first.value)
+        elif isinstance(first, ast.Expr) and isinstance(first.value, ast.Constant):
+            continue
+        else:
+            break
     n_name = next((k for k, v in env0.items() if v == "len(self)"), None)
     patt_var = next((k for k, v in env0.items() if v == "self"), None)
     out_list = next((k for k, v in env0.items() if v == "[]"), None)
@@ -107,7 +114,11 @@ def rule_transport(ctx: Ctx, po: PermOps, mo: MeshOps, fname: str, cells: List[s
         raise AnalysisError(f"{fi.where}: call of {cond_name} not found")
     # the condition must be asked of the rotated pattern with the transported cells
     call = cond_stmt.test
-    if unparse(call.func.value) != patt_var or [unparse(a) for a in call.args] != cells:
+    args_txt = [unparse(a) for a in call.args]
+    if unparse(call.func.value) == patt_var and args_txt != cells and not (set(args_txt) <= set(cells) and len(args_txt) == len(cells)):
+        # the cells are passed in another spelling (unpacked coordinates, a rebuilt tuple): not recognised
+        raise AnalysisError(f"{fi.where}: the cells passed to the side conditions (`{unparse(call)[:70]}`) are not the names {cells}")
+    if unparse(call.func.value) != patt_var or args_txt != cells:
         ctx.violation("C18-R1", fi, cond_stmt, f"side conditions are evaluated as `{unparse(call)}`; they must see the rotated pattern `{patt_var}` and the transported cell(s) {cells}", robust=True)
         return
     if set(cell_updates) != set(cells):
